@@ -738,8 +738,9 @@ class Collection(object):
                 else:
                     _id = ObjectId()
                 to_insert = dict(spec, _id=_id)
-                to_insert = self._expand_dots(to_insert)
+                # only the equalities of the filter go into the new document
                 to_insert, _ = self._discard_operators(to_insert)
+                to_insert = self._expand_dots(to_insert)
                 existing_document = to_insert
                 was_insert = True
             else:
@@ -1100,7 +1101,7 @@ class Collection(object):
                     sub_expanded[key_part] = {}
                 sub_expanded = sub_expanded[key_part]
                 key = '.'.join(key_parts[:i + 1])
-                if not isinstance(sub_expanded, dict):
+                if not isinstance(sub_expanded, dict) or paths.get(key) == key:
                     _raise_incompatible(key)
                 paths[key] = k
             sub_expanded[key_parts[-1]] = v
